@@ -104,6 +104,23 @@ def blockSigOk {α} (ty : α → Nat) (batched : Nat → Bool) (verify1 : α →
     (items : List α) : Bool :=
   (blockTasks ty batched cores items).all (taskOk verify1)
 
+/-- A transaction as seen by block signature verification: the digest that is checked is the
+transaction's *unsigned* bytes (`tx.UnsignedBytes()`), not its full bytes. -/
+structure SigTx (M A : Type) where
+  unsigned : M
+  signedBytes : M
+  auth : A
+
+/-- the loop of `Processor.verifySignatures`: `batchVerifier.Add(tx.UnsignedBytes(), tx.Auth)`
+for every transaction of the block, in block order -/
+def blockItems {M A} (txs : List (SigTx M A)) : List (M × A) := txs.map fun tx => (tx.unsigned, tx.auth)
+
+/-- `verifySignatures` + `waitSignatures` on a block: `verify msg auth` is `Auth.Verify(msg)`,
+`tyOf auth` is `Auth.GetTypeID()` (`NewExecutionBlock` counts auth types over all txs). -/
+def verifyBlockSigs {M A} (verify : M → A → Bool) (tyOf : A → Nat) (batched : Nat → Bool)
+    (cores : Nat) (txs : List (SigTx M A)) : Bool :=
+  blockSigOk (fun x => tyOf x.2) batched (fun x => verify x.1 x.2) cores (blockItems txs)
+
 /-- One signature job on a pool: the submitted tasks, the tasks that ran, the reported verdict. -/
 structure JobObs (α : Type) where
   tasks : List (List α)
